@@ -185,12 +185,16 @@ func oC02(ix *Index) []Violation {
 }
 
 // oC02Tune is the second sentence of C02: once TunePool(n) has returned, only jobs dispatched before
-// it may exceed n. Dispatch is not observable, so the rule is restricted to what is certain: a job
-// whose submission began after TunePool returned was dispatched under the new limit, and at the
-// moment the last of the in-flight jobs was dispatched all the others were counted. Hence, if every
-// in-flight job either entered before the return or was submitted after it, and at least one is of
-// the second kind, at most n are in flight. (A first version bounded "in transit" jobs by 1; that was
-// a false alarm of the check: several jobs can sit in node channels between dispatch and start.)
+// it may exceed n. Dispatch (the slot reservation) is not observable, so the clause rests on what is
+// certain: a job submitted after the return is dequeued after it; its reservation belongs to the
+// same dispatch call as its dequeue; and a dispatcher executes one dispatch call at a time. Hence
+// of the in-flight jobs submitted after the return at most D (= number of event loops that can be
+// alive: 1 + Stop/Restart calls so far) were reserved before it. If more than D such jobs are in
+// flight, one of them was reserved under the new limit, and when the last of all in-flight jobs was
+// reserved every other one was already counted: at most n may be in flight.
+// (Two earlier versions of this clause were false alarms of the check: "at most one job in transit"
+// ignores jobs waiting in node channels, and "submitted after the return => reserved after it"
+// ignores that a dispatch call can be preempted between its reservation and its dequeue.)
 func oC02Tune(ix *Index) []Violation {
 	var out []Violation
 	tunes := ix.ByOp["tune"]
@@ -203,7 +207,7 @@ func oC02Tune(ix *Index) []Violation {
 		if i+1 < len(tunes) {
 			end = tunes[i+1].Call
 		}
-		in := map[int]int{} // job -> enter position
+		in := map[int]bool{}
 		for pos := 0; pos < end; pos++ {
 			ev := ix.H[pos]
 			if ev.W != 0 {
@@ -213,23 +217,26 @@ func oC02Tune(ix *Index) []Violation {
 			case "exit":
 				delete(in, ev.J)
 			case "enter":
-				in[ev.J] = pos
+				in[ev.J] = true
 				if pos < tc.Ret {
 					continue
 				}
-				certain, fresh := true, 0
-				for j, p := range in {
-					jr := ix.Jobs[j]
-					switch {
-					case p < tc.Ret:
-					case jr != nil && !jr.Pre && jr.Add.Call > tc.Ret:
+				fresh := 0
+				for j := range in {
+					if jr := ix.Jobs[j]; jr != nil && !jr.Pre && jr.Add.Call > tc.Ret {
 						fresh++
-					default:
-						certain = false
 					}
 				}
-				if certain && fresh > 0 && len(in) > n {
-					out = append(out, v("C02", "after-tune", "TunePool(%d) returned at %d; at %d there are %d invocations in progress, %d of them submitted after the call returned and the rest started before it", n, tc.Ret, pos, len(in), fresh))
+				loops := 1
+				for _, op := range []string{"restart", "stop", "waitstop"} {
+					for _, c := range ix.ByOp[op] {
+						if c.Call < pos {
+							loops++
+						}
+					}
+				}
+				if fresh > loops && len(in) > n {
+					out = append(out, v("C02", "after-tune", "TunePool(%d) returned at %d; at %d there are %d invocations in progress, %d of them submitted after the call returned (at most %d of those can have been dispatched before it)", n, tc.Ret, pos, len(in), fresh, loops))
 					return out
 				}
 			}
